@@ -562,7 +562,9 @@ def odd_join_cases(prefix, kinds):
     rng = random.Random(59)
     cases = []
     args = ["//secret.txt", "///secret.txt", "/./secret.txt", "//./secret.txt", "..//secret.txt", "../../secret.txt",
-            "//d//f", "//d/../secret.txt", "/d/..//secret.txt"]
+            "//d//f", "//d/../secret.txt", "/d/..//secret.txt",
+            # a backslash is an ordinary character of a name, not a separator: each of these is ONE absent component
+            "..\\secret.txt", "d\\f", "d\\..\\..\\secret.txt", "\\secret.txt", "d\\e\\h"]
     for kind in kinds:
         c = vfx.Case("%s_oddjoin_%s" % (prefix, kind))
         g = build_config(c, kind, rng)
@@ -577,7 +579,7 @@ def odd_join_cases(prefix, kinds):
         for a in args:
             sp = "%d:j%s" % (t, vfx.hexs(a))
             c.op("asstr", sp); c.op("exists", sp); c.op("readtostring", sp); c.op("metadata", sp)
-        for a in ("//secret.txt", "//d//new"):
+        for a in ("//secret.txt", "//d//new", "d\\note.txt", "..\\up.txt"):
             sp = "%d:j%s" % (t, vfx.hexs(a))
             h = c.op("createfile", sp); c.op("hwrite", h, vfx.hexs(b"inside")); c.op("hdrop", h)
             c.op("removefile", sp)
@@ -612,7 +614,7 @@ def type_conflict_cases(prefix):
     return cases
 
 
-def lower_only_cases(prefix, kinds):
+def lower_only_cases(prefix, kinds, stamp=False):
     """every one-path operation on entries that ONLY a lower layer holds (a non-empty directory, a file in it, an empty
     directory): whatever the call answers, no mutating call may reach a lower layer"""
     rng = random.Random(47)
@@ -630,6 +632,10 @@ def lower_only_cases(prefix, kinds):
                 write_file(c, lo, base + "d/f", b"lower file")
                 write_file(c, lo, base + "d/e/h", b"deeper")
                 c.op("createdirall", vfx.ps(lo, base + "m"))
+                if stamp:      # explicit timestamps on the lower entries: re-timing by "now" becomes visible
+                    for q in ("d", "d/e", "d/f", "d/e/h", "m"):
+                        for k, v in (("setatime", TIMES[1]), ("setmtime", TIMES[4]), ("setctime", TIMES[5])):
+                            c.op(k, vfx.ps(lo, base + q), v)
                 c.op("clearlog")
                 c.op("snap", t)
                 c.first_snap = c.nops - 1
